@@ -1,7 +1,8 @@
 // Instantiation driver: makes clang instantiate every function template of the
 // headers in scope so that the extractor can analyse their bodies.
 //
-//   -DVP=0  payload std::vector<int>   (quick tier; iterable, comparable)
+//   -DVP=0  payload vdrv::Hostile      (quick tier; iterable, comparable, noexcept move construction but
+//                                        potentially-throwing copy, copy/move assignment and comparison)
 //   -DVP=1  payload int
 //   -DVP=2  payload std::string
 //   -DVP=3  payload struct Rec {int; std::string; std::vector<int>}
@@ -51,10 +52,35 @@ struct Rec {
         return a == o.a && b == o.b && c == o.c;
     }
 };
+// the most hostile payload a client may legally use: everything user code can do wrong at run time
+// (throwing copies, throwing assignments, throwing comparison) is possible in its type
+struct Hostile {
+    std::vector<int> v;
+    Hostile() = default;
+    Hostile(const Hostile& o): v(o.v) {}
+    Hostile(Hostile&& o) noexcept: v(std::move(o.v)) {}
+    Hostile& operator=(const Hostile& o)
+    {
+        v = o.v;
+        return *this;
+    }
+    Hostile& operator=(Hostile&& o)  // deliberately not noexcept
+    {
+        v = std::move(o.v);
+        return *this;
+    }
+    bool operator==(const Hostile& o) const { return v == o.v; }
+    auto begin() { return v.begin(); }
+    auto end() { return v.end(); }
+    auto begin() const { return v.begin(); }
+    auto end() const { return v.end(); }
+};
 #if VP == 0
-using P = std::vector<int>;
+using P = Hostile;
 #elif VP == 1
 using P = int;
+#elif VP == 4
+using P = std::vector<int>;
 #elif VP == 2
 using P = std::string;
 #else
@@ -123,7 +149,7 @@ using namespace gmlc::concurrency;
 using vdrv::P;
 
 // ---------------------------------------------------------------- handles
-#if VP == 0 || VP == 2
+#if VP == 0 || VP == 2 || VP == 4
 #    define INST_HANDLES(M)                                                     \
         template class gmlc::libguarded::lock_handle<P, M>;                     \
         template class gmlc::libguarded::shared_lock_handle<P, M>;
@@ -278,7 +304,7 @@ template void use_all<std::shared_timed_mutex>(const P&);
 }  // namespace vdrv
 
 // -------------------------------------------------------------------- rcu
-#if VP == 1 || VP == 2 || VP == 0
+#if VP == 1 || VP == 2 || VP == 0 || VP == 4
 #    define RCU_T P
 #else
 #    define RCU_T std::string
